@@ -370,6 +370,12 @@ def main(run, replay=None):
         "cases = real MADE networks built from final states of the exhaustive Made.tla run (draws injected) and from the real "
         "generator; non-trivial = distinct (copy, architecture, degree draw, context) with more than one feature"
     )
+    if replay and replay["case"].get("kind") == "assembly":
+        from vcore import assembly
+
+        for f in assembly.replay(run, replay["case"]):
+            run.violation({"kind": "assembly", "clause": f["clause"]}, "replayed: " + f["detail"], replay["case"])
+        return
     if replay:
         c = replay["case"]
         import torch
@@ -511,6 +517,11 @@ def main(run, replay=None):
     if nets:
         n0 = next((n for n in nets if n["cfg"]["rnd"] and n["cfg"]["D"] >= 3 and n["cfg"]["B"] >= 1), nets[0])
         run.sample({"real_rng_network": n0["copy"], "cfg": n0["cfg"], "degrees": [la["degs"] for la in n0["layers"]], "deps": n0["deps"]})
+    # system level: MaskedAutoregressiveFlow as assembled by its constructor (spec/Assembly.tla)
+    from vcore import assembly
+
+    for f in assembly.run_assembly(run, "maf"):
+        run.violation({"kind": "assembly", "clause": f["clause"], "flow": "maf"}, "MaskedAutoregressiveFlow %s: %s" % (f["cfg"], f["detail"]), dict({k: v for k, v in f.items() if k != "detail"}, kind="assembly"))
     seen = set()
     for f in fails:
         key = (f["copy"], json.dumps(f["cfg"], sort_keys=True), f["clause"])
@@ -520,6 +531,7 @@ def main(run, replay=None):
         run.violation({"copy": f["copy"], "clause": f["clause"], "rnd": f["cfg"]["rnd"], "res": f["cfg"]["res"]}, "%s %s: %s" % (f["copy"], f["cfg"], f["detail"]), f)
     run.exhaustive = True
     run.assumptions = [
+        "assembled flows (Assembly.tla): 1..4 features, 1..3 layers, reverse and (injected) random permutations, with / without batch norm between layers",
         "architectures up to the stated bound (features, hidden width, blocks, multiplier); beyond it only by the structural argument",
         "dependency of the real function is measured with all-ones weights / identity activation (exact) and by autograd Jacobians for random weights, ReLU, batch norm (train and eval) and dropout (subset)",
     ]
